@@ -39,7 +39,7 @@ Bounded == Len(sm'.ctx) <= MaxCtx /\ Len(sm'.buf) <= MaxBuf /\ sm.st # "ERR"
 NoUnderflow == NoUnderflowS(sm)
 ChunkInvisible == sm = Run(SMInit, text)
 Valid(r) == r.ok /\ ~r.ex /\ ~DupKeys(r.v)
-RefinesRecognizer == LET r == Doc(text) IN Valid(r) => Result(Run(sm, <<32>>)) = [ok |-> TRUE, v |-> r.v]
+RefinesRecognizer == LET r == Doc(text) IN Valid(r) => Result(Run(sm, Flush)) = [ok |-> TRUE, v |-> r.v]
 
 CtlView == <<sm.st, sm.prev, sm.ctx, sm.inC, sm.uc, [i \in 1..Len(sm.lists) |-> sm.lists[i].k], Len(sm.props),
              IF sm.buf = <<>> THEN 0 ELSE IF Len(sm.buf) = 1 THEN sm.buf[1] ELSE 256, ntok>>
